@@ -471,7 +471,8 @@ reg(P("C19", "push", "c19",
            "longer scripts; free-running runs with 2-3 publishers and a poll loop per id whose time-outs collide with "
            "publishes; 4 gate-forced orders x 2 time-outs; heart-beat scenarios over tcp and mock (a publisher disconnects "
            "after its publish woke the poll, polls that find messages at once while publishers come and go, a client "
-           "that lets the heart beat lapse); every case ends with polls until two come back empty; "
+           "that lets the heart beat lapse); a real Prosumer with callbacks (a third of them slow) and 1-2 publishers over tcp "
+           "and mock, every callback a delivery event; every case ends with polls until two come back empty; "
            "non-trivial = at least one publish",
       assumptions=["except in the heart-beat scenarios the heartbeat is disabled (HeartBeat = 0) so that delivery is judged "
                    "independently of the heartbeat-driven offline detection", "one poll per client id at a time (as the Prosumer does)",
